@@ -185,21 +185,22 @@ pub proof fn lemma_list_untouched(slots: Map<nat, SlotW>, slots1: Map<nat, SlotW
         forall|i: int| #![trigger slots1.dom().contains(l[i])] 0 <= i < l.len() ==> slots1.dom().contains(l[i]) && slots1[l[i]] == slots[l[i]],
     ensures list_ok(slots1, l, c)
 {
-    reveal(list_ok);
+    // pattern used for every "re-establish an opaque predicate" lemma: facts come from the member lemma (no global reveal), the
+    // conjuncts are proved one by one, the predicate is folded at the end. (Re-folding under a global reveal was flaky across z3 seeds.)
     assert forall|i: int| 0 <= i < l.len() implies {
         &&& #[trigger] slots1.dom().contains(l[i])
         &&& l[i] != 0
         &&& class_idx(slots1[l[i]].size) == c
         &&& slots1[l[i]].c == SlotC::Free(nxt(l, i))
     } by {
-        assert(slots.dom().contains(l[i]));
+        lemma_list_member(slots, l, c, i);
         assert(slots1.dom().contains(l[i]));
         assert(slots1[l[i]] == slots[l[i]]);
     }
-    // the second conjunct spelled out as well (re-folding the opaque predicate from "the same quantifier" was flaky)
     assert forall|i: int, j: int| 0 <= i < j < l.len() implies l[i] != l[j] by {
-        assert(slots.dom().contains(l[i]));
+        lemma_list_member(slots, l, c, i);
     }
+    assert(list_ok(slots1, l, c)) by { reveal(list_ok); }
 }
 /// members of a free list are Free slots of that class; any other slot is on no such list
 pub proof fn lemma_not_member(slots: Map<nat, SlotW>, l: Seq<nat>, c: int, o: nat)
@@ -216,7 +217,6 @@ pub proof fn lemma_list_push(slots: Map<nat, SlotW>, l: Seq<nat>, c: int, o: nat
     requires list_ok(slots, l, c), slots.dom().contains(o), !(slots[o].c is Free), class_idx(slots[o].size) == c, o != 0
     ensures list_ok(slots.insert(o, SlotW { size: slots[o].size, c: SlotC::Free(first(l)) }), seq![o] + l, c)
 {
-    reveal(list_ok);
     let slots1 = slots.insert(o, SlotW { size: slots[o].size, c: SlotC::Free(first(l)) });
     let l2 = seq![o] + l;
     assert forall|i: int| 0 <= i < l2.len() implies {
@@ -227,7 +227,7 @@ pub proof fn lemma_list_push(slots: Map<nat, SlotW>, l: Seq<nat>, c: int, o: nat
     } by {
         if i > 0 {
             assert(l2[i] == l[i - 1]);
-            assert(slots.dom().contains(l[i - 1]));
+            lemma_list_member(slots, l, c, i - 1);
             assert(l[i - 1] != o);
             assert(nxt(l2, i) == nxt(l, i - 1));
         } else {
@@ -236,9 +236,10 @@ pub proof fn lemma_list_push(slots: Map<nat, SlotW>, l: Seq<nat>, c: int, o: nat
     }
     assert forall|i: int, j: int| 0 <= i < j < l2.len() implies l2[i] != l2[j] by {
         assert(l2[j] == l[j - 1]);
-        assert(slots.dom().contains(l[j - 1]));
+        lemma_list_member(slots, l, c, j - 1);
         if i > 0 { assert(l2[i] == l[i - 1]); }
     }
+    assert(list_ok(slots1, l2, c)) by { reveal(list_ok); }
 }
 /// unlink member k: predecessor (if any) points past it, the member itself leaves the list
 pub proof fn lemma_list_unlink(slots: Map<nat, SlotW>, l: Seq<nat>, c: int, k: int, newc: SlotC)
@@ -250,11 +251,12 @@ pub proof fn lemma_list_unlink(slots: Map<nat, SlotW>, l: Seq<nat>, c: int, k: i
         list_ok(slots2, rm(l, k), c) && first(rm(l, k)) == (if k == 0 { nxt(l, 0) } else { l[0] })
     })
 {
-    reveal(list_ok);
     let o = l[k];
     let slots1 = slots.insert(o, SlotW { size: slots[o].size, c: newc });
     let slots2 = if k > 0 { slots1.insert(l[k - 1], SlotW { size: slots[l[k - 1]].size, c: SlotC::Free(nxt(l, k)) }) } else { slots1 };
     let l2 = rm(l, k);
+    lemma_list_member(slots, l, c, k);
+    if k > 0 { lemma_list_member(slots, l, c, k - 1); }
     assert forall|i: int| 0 <= i < l2.len() implies {
         &&& #[trigger] slots2.dom().contains(l2[i])
         &&& l2[i] != 0
@@ -264,9 +266,8 @@ pub proof fn lemma_list_unlink(slots: Map<nat, SlotW>, l: Seq<nat>, c: int, k: i
         let i0 = if i < k { i } else { i + 1 };
         assert(l2[i] == l[i0]);
         if i + 1 < l2.len() { assert(l2[i + 1] == l[(if i + 1 < k { i + 1 } else { i + 2 })]); }
-        assert(slots.dom().contains(l[i0]));
+        lemma_list_member(slots, l, c, i0);
         assert(l[i0] != o);
-        if k > 0 { assert(slots.dom().contains(l[k - 1])); }
         if i0 == k - 1 {
             assert(nxt(l2, i) == nxt(l, k));
         } else {
@@ -278,10 +279,11 @@ pub proof fn lemma_list_unlink(slots: Map<nat, SlotW>, l: Seq<nat>, c: int, k: i
         let i0 = if i < k { i } else { i + 1 };
         let j0 = if j < k { j } else { j + 1 };
         assert(l2[i] == l[i0] && l2[j] == l[j0]);
+        lemma_list_member(slots, l, c, i0);
     }
     assert(l2.len() == l.len() - 1);
     if k == 0 { if l2.len() > 0 { assert(l2[0] == l[1]); } } else { assert(l2[0] == l[0]); }
-    assert(list_ok(slots2, l2, c));
+    assert(list_ok(slots2, l2, c)) by { reveal(list_ok); }
 }
 
 // ---- free_members -------------------------------------------------------------------------------------------
